@@ -1093,7 +1093,14 @@ def gen_array_pass(node, code, codegen):
         scope = 'g'  # global
     else:
         scope = 'l'  # local
-    code.add((f'pushref{scope}', var.full_name))
+
+    if node.identifier in node.parent_routine.params or \
+       var.type.is_dynamic_array:
+        # the variable already holds a reference to the array; pass
+        # that on
+        code.add((f'read{scope}@', var.full_name))
+    else:
+        code.add((f'pushref{scope}', var.full_name))
 
 
 @QvmCodeGen.generator_for(expr.BinaryOp)
